@@ -167,6 +167,9 @@ class SymEval:
         return ("unk", what, self.uid())
 
     def emit(self, kind, name, term, node, frame, **kw) -> Event:
+        if kind in ("store_sub", "store_attr") and term is not None and self.live not in (T.TRUE, T.FALSE) and term[0] != "closure" \
+                and any(x[0] == "ite" for x in T.walk(term)):
+            term = T.assume(term, self.live, True)  # what is stored on a path, simplified by what is known on that path
         ev = Event(len(self.events), kind, name, term, guard=self.live, loops=self.loop_stack, node=node,
                    func=frame.func if frame else "", depth=self.depth, ctx=self.ctx_stack, **kw)
         self.events.append(ev)
@@ -216,6 +219,21 @@ class SymEval:
         self.live = T.TRUE
         self.loop_stack = ()
         return self.call(fterm, list(args), list(kwargs), node, frame)
+
+    def callable_of(self, r: "Result", qualname: str) -> Optional[Term]:
+        """The callable for a nested function of the reference tree, wherever it lives today: the closure in the parent's
+        environment (possibly renamed), or a reference to the module-level function / method it was moved to."""
+        name = self.model.local_name(qualname)
+        c = r.env.get(name)
+        if c is not None and c[0] == "closure":
+            return c
+        now = (self.model.moved or {}).get(qualname) if self.model.aliases() is not None else None
+        if now and now in self.model.functions:
+            fi = self.model.functions[now]
+            if fi.cls and _first_param(fi.node) == "self":
+                return T.sym("self." + fi.name)
+            return T.sym("rex." + now)
+        return None
 
     # ------------------------------------------------------------------ typing helpers
     def _annotation_class(self, ann, module: str) -> Optional[str]:
@@ -296,6 +314,10 @@ class SymEval:
             self.emit("delete", _dotted(tgt) or "?", None, st, frame)
 
     def assign(self, tgt, v: Term, frame: Frame, st):
+        # a value computed on a path is simplified by what is known on that path (e.g. `x if r is not None else None`
+        # under `if r is not None:`)
+        if self.live not in (T.TRUE, T.FALSE) and v[0] != "closure" and any(x[0] == "ite" for x in T.walk(v)):
+            v = T.assume(v, self.live, True)
         if isinstance(tgt, ast.Name):
             frame.env[tgt.id] = v
         elif isinstance(tgt, (ast.Tuple, ast.List)):
@@ -411,7 +433,7 @@ class SymEval:
         self.live = live0 if both_full else T.mk_or([live1, live2])
 
     def st_If(self, st, frame):
-        c = self.eval(st.test, frame)
+        c = self.as_bool(self.eval(st.test, frame))
         self._branch(c, lambda: self.exec_block(st.body, frame), lambda: self.exec_block(st.orelse, frame), frame)
 
     def _assigned_names(self, stmts) -> Tuple[Set[str], Set[Tuple[str, str]]]:
@@ -513,15 +535,22 @@ class SymEval:
             frame.env[n] = env_in[n]
         for d, a in carried_attrs:
             self.heap[(T.sym(d), a)] = T.sym(f"loop{lid}:{d}.{a}")
+        live0 = self.live
         if target is not None:
             el = ("elem", iter_term, lid)
-            self.assign(target, el if proj is None else T.mk_index(el, T.const(proj)), frame, st)
-        live0 = self.live
+            if isinstance(proj, tuple):
+                _, tmpl, inner_elem, inner_conds = proj
+                m = {inner_elem: el} if inner_elem is not None else {}
+                self.assign(target, T.subst(tmpl, m), frame, st)
+                self.live = T.mk_and([live0] + [T.subst(c, m) for c in inner_conds])
+            else:
+                self.assign(target, el if proj is None else T.mk_index(el, T.const(proj)), frame, st)
+        body_live = self.live
         self.loop_stack = self.loop_stack + (lid,)
         cond_t = None
         if cond_ast is not None:
-            cond_t = self.eval(cond_ast, frame)
-            self.live = T.mk_and([live0, cond_t])
+            cond_t = self.as_bool(self.eval(cond_ast, frame))
+            self.live = T.mk_and([body_live, cond_t])
         self.exec_block(st.body, frame)
         env_out = dict(frame.env)
         live_out = self.live
@@ -530,8 +559,40 @@ class SymEval:
         return LoopInfo(lid, kind, iter_term, _dotted(target) if target is not None else None, env_in, env_out, cond_t, st,
                         live0, live_out, {n: pre_env[n] for n in env_in if n in pre_env})
 
+    def _flag_loop(self, st, frame) -> bool:
+        """flag = True; for x in it: if c(x): flag = False [; break]   is   flag = all(not c(x) for x in it)   (and the dual with any)."""
+        if st.orelse or len(st.body) != 1 or not isinstance(st.body[0], ast.If) or st.body[0].orelse:
+            return False
+        body = st.body[0].body
+        if not (1 <= len(body) <= 2) or (len(body) == 2 and not isinstance(body[1], ast.Break)):
+            return False
+        a = body[0]
+        if not (isinstance(a, ast.Assign) and len(a.targets) == 1 and isinstance(a.targets[0], ast.Name) and isinstance(a.value, ast.Constant)
+                and isinstance(a.value.value, bool)):
+            return False
+        pre = frame.lookup(a.targets[0].id)
+        if pre != (T.FALSE if a.value.value else T.TRUE):
+            return False
+        test = st.body[0].test
+        if any(isinstance(n, (ast.Call, ast.NamedExpr, ast.Await)) and not (isinstance(n, ast.Call) and isinstance(n.func, ast.Name) and n.func.id in ("len", "isinstance", "bool"))
+               for n in ast.walk(test)):
+            return False  # the test must be free of effects for the early exit not to matter
+        elt = test if a.value.value else ast.UnaryOp(op=ast.Not(), operand=test)
+        comp = ast.ListComp(elt=elt, generators=[ast.comprehension(target=st.target, iter=st.iter, ifs=[], is_async=0)])
+        call = ast.Call(func=ast.Name(id="any" if a.value.value else "all", ctx=ast.Load()), args=[comp], keywords=[])
+        ast.copy_location(call, st)
+        ast.fix_missing_locations(call)
+        self.assign(a.targets[0], self.eval(call, frame), frame, st)
+        return True
+
     def st_For(self, st, frame):
+        if self._flag_loop(st, frame):
+            return
         it = self.eval(st.iter, frame)
+        fuse = _fuse_source(it)
+        if fuse is not None:
+            self._loop("for", st, frame, fuse[0], st.target, proj=("fuse",) + fuse[1:])
+            return
         it, proj = canon_iter(it)
         self._loop("for", st, frame, it, st.target, proj=proj)
 
@@ -702,6 +763,12 @@ class SymEval:
         return self.unk("unary op", e)
 
     def as_bool(self, v: Term) -> Term:
+        """Truth value of a container is `len(v) > 0`: `if q:` / `while xs and ...` / `not q` read like the explicit length tests."""
+        if v[0] == "call" and v[1] == "bool" and len(v[2]) == 1 and _seq_like(v[2][0]):
+            v = v[2][0]
+        if _seq_like(v):
+            q = _count_quantifier(ast.Gt(), T.mk_call("len", [v]), T.ZERO)
+            return q if q is not None else T.lt(T.ZERO, T.mk_call("len", [v]))
         return v
 
     def binop(self, op, a: Term, b: Term, node) -> Term:
@@ -753,6 +820,9 @@ class SymEval:
         return T.mk_and(vals) if isinstance(e.op, ast.And) else T.mk_or(vals)
 
     def cmp(self, op, a: Term, b: Term, node) -> Term:
+        q = _count_quantifier(op, a, b)
+        if q is not None:
+            return q
         if isinstance(op, ast.Lt):
             return T.lt(a, b)
         if isinstance(op, ast.LtE):
@@ -787,7 +857,7 @@ class SymEval:
         return T.mk_and(parts) if len(parts) > 1 else parts[0]
 
     def ex_IfExp(self, e, frame):
-        c = self.eval(e.test, frame)
+        c = self.as_bool(self.eval(e.test, frame))
         if c == T.TRUE:
             return self.eval(e.body, frame)
         if c == T.FALSE:
@@ -827,7 +897,36 @@ class SymEval:
             r = self.index_dictcomp(base, key)
             if r is not None:
                 return r
+        sel = self.dict_select(base, key, None, e, frame)
+        if sel is not None:
+            return sel
         return T.mk_index(base, key)
+
+    def dict_select(self, base: Term, key: Term, default: Optional[Term], node, frame) -> Optional[Term]:
+        """{k1: v1, k2: v2, ...}[key] with a symbolic key over a literal table is the if/elif chain over key == k_i (a dispatch
+        table); without a default, the fall-through raises KeyError."""
+        if base[0] != "dict" or not base[1] or key[0] == "const":
+            return None
+        keys = [k for k, _ in base[1]]
+        if len(set(keys)) != len(keys) or key in keys or not all(k[0] in ("sym", "const") for k in keys):
+            return None
+        conds = [T.eq(key, k, numeric=False) for k in keys]
+        if default is None:
+            live0 = self.live
+            self.live = T.mk_and([live0] + [T.mk_not(c) for c in conds])
+            if self.live != T.FALSE:
+                self.emit("raise", frame.func, T.mk_call("KeyError", [key]), node, frame)
+                if frame.is_helper:
+                    frame.raised = T.mk_or([frame.raised, self.live])
+            self.live = T.mk_and([live0, T.mk_or(conds)])
+            out = base[1][-1][1]
+            rest = list(zip(conds, [v for _, v in base[1]]))[:-1]
+        else:
+            out = default
+            rest = list(zip(conds, [v for _, v in base[1]]))
+        for c, v in reversed(rest):
+            out = T.mk_ite(c, v, out)
+        return out
 
     def index_dictcomp(self, comp: Term, key: Term) -> Optional[Term]:
         """{k: v for ... in X.items()/X.keys()/X}[key]  ->  v with the loop element bound to `key`."""
@@ -890,13 +989,17 @@ class SymEval:
         for g in e.generators:
             it = self.eval(g.iter, frame)
             inherited = ()
-            if it[0] == "comp" and it[1] in ("list", "gen") and len(it[3]) == 1 and it[2][0] == "elem" and it[2][1] == it[3][0][1]:
-                # iterating over `[x for x in A if c(x)]` is iterating over A under c(x)
-                inner_elem, inner_conds, it = it[2], it[4], it[3][0][1]
-                inherited = tuple(T.subst(c, {inner_elem: ("elem", it, cid)}) for c in inner_conds)
-            it, proj = canon_iter(it)
-            el = ("elem", it, cid)
-            self.assign(g.target, el if proj is None else T.mk_index(el, T.const(proj)), frame, e)
+            fuse = _fuse_source(it)
+            if fuse is not None:
+                it, tmpl, inner_elem, inner_conds = fuse
+                el = ("elem", it, cid)
+                m = {inner_elem: el} if inner_elem is not None else {}
+                inherited = tuple(T.subst(c, m) for c in inner_conds)
+                self.assign(g.target, T.subst(tmpl, m), frame, e)
+            else:
+                it, proj = canon_iter(it)
+                el = ("elem", it, cid)
+                self.assign(g.target, el if proj is None else T.mk_index(el, T.const(proj)), frame, e)
             gens.append((_dotted(g.target) or ast.unparse(g.target), it))
             for ct in inherited:
                 conds.append(ct)
@@ -973,6 +1076,15 @@ class SymEval:
                 return T.NONE
         return self.call(fterm, args, kwargs, e, frame, recv=recv, method=method)
 
+    def _callable_leaf(self, f: Term) -> bool:
+        if f[0] == "closure":
+            return True
+        if f[0] == "ite":
+            return self._callable_leaf(f[2]) and self._callable_leaf(f[3])
+        if f[0] == "sym" and f[1].startswith("self.") and f[1].count(".") == 1:
+            return True
+        return False
+
     def fname(self, fterm: Term) -> str:
         if fterm[0] == "sym":
             return fterm[1]
@@ -991,17 +1103,32 @@ class SymEval:
         # closures
         if fterm[0] == "closure":
             return self.apply_closure(fterm, args, kwargs, node, frame)
-        if fterm[0] == "ite" and fterm[2][0] == "closure" and fterm[3][0] == "closure":
+        if fterm[0] == "ite" and all(self._callable_leaf(x) for x in (fterm[2], fterm[3])):
+            # (f if c else g)(args): each alternative applied on its own path
             out = {}
-            self._branch(fterm[1], lambda: out.__setitem__("a", self.apply_closure(fterm[2], args, kwargs, node, frame)),
-                         lambda: out.__setitem__("b", self.apply_closure(fterm[3], args, kwargs, node, frame)), frame)
+
+            def leaf(f):
+                if f[0] == "sym" and "." in f[1]:
+                    return self.call(f, args, kwargs, node, frame, recv=T.sym(f[1].rsplit(".", 1)[0]), method=f[1].rsplit(".", 1)[1])
+                return self.call(f, args, kwargs, node, frame)
+            self._branch(fterm[1], lambda: out.__setitem__("a", leaf(fterm[2])), lambda: out.__setitem__("b", leaf(fterm[3])), frame)
             return T.mk_ite(fterm[1], out.get("a", T.NONE), out.get("b", T.NONE))
+        if name in ("all", "any") and len(args) == 1 and not kwargs and args[0][0] == "comp" and args[0][1] in ("list", "gen") and len(args[0][3]) == 1:
+            args = [_canon_quantified(name, args[0])]
+        if method == "get" and recv is not None and recv[0] == "dict" and len(args) == 2 and not kwargs:
+            sel = self.dict_select(recv, args[0], args[1], node, frame)
+            if sel is not None:
+                return sel
         # interpreted functions
         r = self.interpret(name, fterm, args, kwargs, node, frame, recv, method)
         if r is not None:
             return r
         # in-repo callee?
         target = self.resolve(name, fterm, recv, method, frame)
+        if target is not None and self.model.moved and target.qualname in self.model.moved.values() and self.depth < self.max_depth + 3:
+            # a nested function of the reference tree that now lives at module level / as a method: applied like the closure it was
+            self_t = recv if (target.cls and target.parent is None and _first_param(target.node) in ("self",)) else None
+            return self.inline_call(target, args, kwargs, self_t, node, frame)
         if target is not None and self.is_new_helper(target) and len(self.helper_stack) < 3 and target.qualname not in self.helper_stack:
             # a function the reference tree does not have: a helper extracted later; analyse it at the call site, with its
             # events attributed to the caller
@@ -1285,7 +1412,7 @@ class SymEval:
                          lambda: out.__setitem__("b", self.call(g, list(ops), [], node, frame)), frame)
             self.emit("call", "jax.lax.cond", pred, node, frame, args=tuple(args))
             return T.mk_ite(pred, out.get("a", T.NONE), out.get("b", T.NONE))
-        if name == "jax.tree_util.tree_map" and len(args) >= 2 and args[0][0] == "ite" and args[0][2][0] == "closure" and args[0][3][0] == "closure":
+        if name == "jax.tree_util.tree_map" and len(args) >= 2 and args[0][0] == "ite" and args[0][2][0] in ("closure", "sym", "attr") and args[0][3][0] in ("closure", "sym", "attr"):
             # the mapped function is selected by a condition: map with each and merge
             cnd, fa, fb = args[0][1], args[0][2], args[0][3]
             out = {}
@@ -1295,13 +1422,24 @@ class SymEval:
             if a_[0] == "list" and b_[0] == "list" and len(a_[1]) == len(b_[1]):
                 return ("list", tuple(T.mk_ite(cnd, x, y) for x, y in zip(a_[1], b_[1])))
             return T.mk_ite(cnd, a_, b_)
-        if name == "jax.tree_util.tree_map" and len(args) >= 2 and args[0][0] == "closure":
+        if name == "jax.tree_util.tree_map" and len(args) >= 2 and args[0][0] in ("closure", "sym", "attr"):
             # leafwise application: the identity on leaves is what the algebraic rules need
+            fn = args[0]
+
+            def apply(leaves):
+                if fn[0] == "closure":
+                    return self.call(fn, leaves, [], node, frame)
+                # a function / bound method given by reference
+                if fn[0] == "sym" and "." in fn[1]:
+                    return self.call(fn, leaves, [], node, frame, recv=T.sym(fn[1].rsplit(".", 1)[0]), method=fn[1].rsplit(".", 1)[1])
+                if fn[0] == "attr":
+                    return self.call(fn, leaves, [], node, frame, recv=fn[1], method=fn[2])
+                return self.call(fn, leaves, [], node, frame)
             trees = list(args[1:])
             if all(t[0] == "list" for t in trees) and len({len(t[1]) for t in trees}) == 1 and not any(
                     x[0] == "star" for t in trees for x in t[1]):
-                return ("list", tuple(self.call(args[0], [t[1][i] for t in trees], [], node, frame) for i in range(len(trees[0][1]))))
-            return self.call(args[0], trees, [], node, frame)
+                return ("list", tuple(apply([t[1][i] for t in trees]) for i in range(len(trees[0][1]))))
+            return apply(trees)
         if name == "functools.partial" and len(args) >= 1:
             u = self.uid()
             self.closures[u] = Closure(u, "partial", inner=args[0], bound_args=tuple(args[1:]),
@@ -1356,6 +1494,24 @@ def canon_iter(it: Term):
             if isinstance(f, tuple) and f[0] == "attr" and f[2] == meth:
                 return ("call", ("attr", f[1], "items"), (), (), it[4]), proj
     return it, None
+
+
+_SEQ_ATTRS = ("action", "observation")
+
+
+def _seq_like(v: Term) -> bool:
+    """Terms known to be lists / deques: event queues (q_*, _q_*), the synchronizer's action / observation deques, local list
+    literals, accumulations, list comprehensions and the results of sorted() / list()."""
+    if v[0] in ("list", "accum") or (v[0] == "comp" and v[1] in ("list", "set", "dict")):
+        return True
+    if v[0] == "sym":
+        last = v[1].rsplit(".", 1)[-1]
+        return last.startswith(("q_", "_q_")) or (last in _SEQ_ATTRS and "." in v[1])
+    if v[0] == "attr":
+        return v[2].startswith(("q_", "_q_")) or v[2] in _SEQ_ATTRS
+    if v[0] == "call" and isinstance(v[1], str) and v[1] in ("sorted", "list", "collections.deque"):
+        return True
+    return False
 
 
 def _fixed_dtype(t: Term) -> bool:
@@ -1414,6 +1570,80 @@ def merge_returns(returns: List[Tuple[Term, Term]]) -> Term:
     for g, v in reversed(returns[:-1]):
         r = T.mk_ite(g, v, r)
     return r
+
+
+def _fuse_source(it: Term):
+    """Iterating over `[g(x) for x in A if c(x)]` is iterating over A under c(x) with the loop variable bound to g(x) (map fusion).
+    Returns (A, g-template, the inner element term or None, conditions) or None."""
+    if not (it[0] == "comp" and it[1] in ("list", "gen") and len(it[3]) == 1):
+        return None
+    inner_it = it[3][0][1]
+    xs = {x for src in (it[2],) + tuple(it[4]) for x in T.walk(src) if x[0] == "elem" and x[1] == inner_it}
+    if len(xs) > 1:
+        return None
+    return inner_it, it[2], (next(iter(xs)) if xs else None), it[4]
+
+
+def _filtered_sublist(t: Term):
+    """len([x for x in it if F]) -> (comprehension, F): the length of a filtered copy of a collection counts the elements satisfying F."""
+    if not (t[0] == "call" and t[1] == "len" and len(t[2]) == 1 and not t[3]):
+        return None
+    c = t[2][0]
+    if not (c[0] == "comp" and c[1] == "list" and len(c[3]) == 1 and c[4]):
+        return None
+    elt, it = c[2], c[3][0][1]
+    if elt[0] == "index" and elt[2] in (T.ZERO, T.ONE):
+        elt = elt[1]
+    if not (elt[0] == "elem" and elt[1] == it):
+        return None
+    return c, T.mk_and(list(c[4]))
+
+
+def _count_quantifier(op, a: Term, b: Term) -> Optional[Term]:
+    """Counting a filtered copy is quantifying over the collection: len(sub) == 0 is all(not F), len(sub) > 0 is any(F),
+    len(sub) == len(whole) is all(F).  One normal form whichever way the code says it."""
+    flip = {ast.Lt: ast.Gt, ast.Gt: ast.Lt, ast.LtE: ast.GtE, ast.GtE: ast.LtE, ast.Eq: ast.Eq, ast.NotEq: ast.NotEq}
+    if type(op) not in flip:
+        return None
+    fa, fb = _filtered_sublist(a), _filtered_sublist(b)
+    if fa is None and fb is not None:
+        a, b, fa, fb, op = b, a, fb, None, flip[type(op)]()
+    if fa is None or fb is not None:
+        return None
+    comp, F = fa
+    gens = comp[3]
+
+    def quant(q, elt):
+        return T.mk_call(q, [_canon_quantified(q, ("comp", "list", elt, gens, ()))])
+    if b == T.ZERO:
+        if isinstance(op, (ast.Eq, ast.LtE)):
+            return quant("all", T.mk_not(F))
+        if isinstance(op, (ast.Gt, ast.NotEq)):
+            return quant("any", F)
+        return None
+    if b == T.ONE and isinstance(op, ast.GtE):
+        return quant("any", F)
+    if b == T.ONE and isinstance(op, ast.Lt):
+        return quant("all", T.mk_not(F))
+    it = gens[0][1]
+    if b[0] == "call" and b[1] == "len" and len(b[2]) == 1 and canon_iter(T.mk_call(T.mk_attr(b[2][0], "values"), []))[0] == it:
+        if isinstance(op, ast.Eq):
+            return quant("all", F)
+        if isinstance(op, (ast.NotEq, ast.Lt)):
+            return T.mk_not(quant("all", F))
+    return None
+
+
+def _canon_quantified(q: str, comp: Term) -> Term:
+    """all([P for x in it if F]) == all([not F or P for x in it]): one normal form, whichever way it is written - negated disjuncts are
+    filters, the others form the element; any([P for x in it if F]) == any([F and P for x in it]): everything in the element."""
+    _, _, elt, gens, conds = comp
+    if q == "any":
+        return ("comp", "list", T.mk_and(list(conds) + [elt]), gens, ())
+    dis = [T.mk_not(c) for c in conds] + (list(elt[1]) if elt[0] == "or" else [elt])
+    filt = sorted({d[1] for d in dis if d[0] == "not"}, key=T.skey)
+    rest = [d for d in dis if d[0] != "not"]
+    return ("comp", "list", T.mk_or(rest) if rest else T.FALSE, gens, tuple(filt))
 
 
 def _first_param(fn) -> Optional[str]:
